@@ -73,9 +73,74 @@ def recheck_all(only):
         sh(["git", "-C", "/repo", "worktree", "prune"])
 
 
+def group(base):
+    """Deliverables of a sub-agent that was given several properties: the first line of
+    change<i>.md names the property; files go to the next free seeded/<PROP>-<n>."""
+    import re
+    wt, out = os.path.join(base, "wt"), os.path.join(base, "out")
+    env = dict(os.environ, PYTHONPATH=os.path.join(wt, "src"), METAPYPE_WT=wt)
+    budget = os.environ.get("SEED_BUDGET", "40")
+    origin = os.environ.get("SEED_ORIGIN", "independent sub-agent given only property texts and a scratch worktree")
+    i = 0
+    while True:
+        i += 1
+        diff, demo, md = (os.path.join(out, "change%d.diff" % i), os.path.join(out, "demo%d.py" % i),
+                          os.path.join(out, "change%d.md" % i))
+        if not os.path.exists(diff):
+            break
+        note = open(md).read() if os.path.exists(md) else ""
+        m = re.search(r"property:\s*(C\d+)", note)
+        if not m:
+            print("change%d: no property line" % i)
+            continue
+        prop = m.group(1)
+        sh(["git", "-C", wt, "checkout", "--", "."])
+        clean = sh([PY, demo], env=env, timeout=300, cwd=out)
+        ap = sh(["git", "-C", wt, "apply", diff])
+        if ap.returncode != 0:
+            print("change%d (%s): patch does not apply" % (i, prop))
+            continue
+        tests = sh([PY, "-m", "pytest", "-q", "-p", "no:cacheprovider", "tests"], env=env, cwd=wt, timeout=900)
+        sh(["git", "-C", wt, "checkout", "--", "tests"])
+        broken = sh([PY, demo], env=env, timeout=300, cwd=out)
+        confirmed = clean.returncode == 0 and broken.returncode != 0 and tests.returncode == 0
+        t0 = time.time()
+        chk = sh([os.path.join(HERE, "check"), prop, "--budget", budget, "--no-evidence"],
+                 env=dict(os.environ, VERIF_REPO=wt), timeout=1800)
+        dt = time.time() - t0
+        detected = chk.returncode == 1 and ("VIOLATION property=%s" % prop) in chk.stdout
+        vline = [l for l in chk.stdout.splitlines() if l.startswith("violation in run")]
+        mini = [l for l in chk.stdout.splitlines() if l.startswith("minimised")]
+        sh(["git", "-C", wt, "checkout", "--", "."])
+        n = 1
+        while os.path.exists(os.path.join(HERE, "seeded", "%s-%d" % (prop, n))):
+            n += 1
+        d = os.path.join(HERE, "seeded", "%s-%d" % (prop, n))
+        os.makedirs(d)
+        shutil.copy(diff, os.path.join(d, "patch.diff"))
+        shutil.copy(demo, os.path.join(d, "demo.py"))
+        meta = {"property": prop, "origin": origin, "needs_to_manifest": note,
+                "confirmed": {"repo_tests_pass_with_change": tests.returncode == 0,
+                              "demo_passes_without_change": clean.returncode == 0,
+                              "demo_fails_with_change": broken.returncode != 0,
+                              "ran": ["pytest of the repository with the change", "demo.py without and with the change",
+                                      "VERIF_REPO=<wt> ./check %s --budget %s --no-evidence" % (prop, budget)]},
+                "kept": confirmed,
+                "check": {"detected": detected, "exit_code": chk.returncode, "wall_s": round(dt, 1),
+                          "first_violation": vline[0] if vline else None, "minimised": mini[0] if mini else None,
+                          "repo_base": sh(["git", "-C", wt, "rev-parse", "--short", "HEAD"]).stdout.strip()}}
+        with open(os.path.join(d, "meta.json"), "w") as f:
+            json.dump(meta, f, indent=1)
+        print("%s-%d (change%d) confirmed=%s detected=%s rc=%d %.0fs %s" %
+              (prop, n, i, confirmed, detected, chk.returncode, dt, vline[0][:150] if vline else ""))
+        sys.stdout.flush()
+
+
 def main():
     if sys.argv[1] == "--all":
         return recheck_all(sys.argv[2:])
+    if sys.argv[1] == "--group":
+        return group(sys.argv[2])
     prop = sys.argv[1]
     which = [int(x) for x in sys.argv[2:]] or [1, 2, 3]
     base = "%s/%s" % (os.environ.get("SEED_BASE", "/tmp/seed"), prop)
